@@ -16,40 +16,41 @@ type indSpec struct {
 	c15     bool // has a documented range / ordering / non-negativity
 	noDeg   bool // no homogeneity degree tabulated
 	sorted3 bool // documented constraint cfg[0] <= cfg[1] <= cfg[2]
+	dflt    [3]int // the default configuration (zero = not used): checked around its warm-up
 	depMinP int  // smallest period at which outputs depend on the newest input (default 1)
 	qDn, qP int  // quick-tier overrides of the dn / period bounds (0 = none)
 	tDn, tP int  // thorough-tier overrides
 }
 
 var indSpecs = []indSpec{
-	{name: "Sma", nper: 1, nin: 1}, {name: "Ema", nper: 1, nin: 1}, {name: "Macd", nper: 3, nin: 1, ordered: true}, {name: "Atr", nper: 1, nin: 3, c15: true},
+	{name: "Sma", dflt: [3]int{50, 0, 0}, nper: 1, nin: 1}, {name: "Ema", dflt: [3]int{20, 0, 0}, nper: 1, nin: 1}, {name: "Macd", dflt: [3]int{12, 26, 9}, nper: 3, nin: 1, ordered: true}, {name: "Atr", dflt: [3]int{14, 0, 0}, nper: 1, nin: 3, c15: true},
 	// trend A
-	{name: "Apo", nper: 2, nin: 1, ordered: true}, {name: "Aroon", nper: 1, nin: 2, heavy: true, c15: true, depMinP: 2, qDn: 3, tDn: 4}, {name: "Bop", nper: 0, nin: 4, c15: true},
-	{name: "Cci", nper: 1, nin: 3, minP: 2}, {name: "Dema", nper: 2, nin: 1}, {name: "EnvelopeSma", nper: 1, nin: 1, c15: true}, {name: "EnvelopeEma", nper: 1, nin: 1, c15: true},
+	{name: "Apo", dflt: [3]int{14, 30, 0}, nper: 2, nin: 1, ordered: true}, {name: "Aroon", nper: 1, nin: 2, heavy: true, c15: true, depMinP: 2, qDn: 3, tDn: 4}, {name: "Bop", nper: 0, nin: 4, c15: true},
+	{name: "Cci", dflt: [3]int{20, 0, 0}, nper: 1, nin: 3, minP: 2}, {name: "Dema", dflt: [3]int{20, 20, 0}, nper: 2, nin: 1}, {name: "EnvelopeSma", dflt: [3]int{20, 0, 0}, nper: 1, nin: 1, c15: true}, {name: "EnvelopeEma", dflt: [3]int{20, 0, 0}, nper: 1, nin: 1, c15: true},
 	{name: "Hma", nper: 1, nin: 1}, {name: "Kama", nper: 3, nin: 1, nonlin: true}, {name: "Kdj", nper: 3, nin: 3, heavy: true, qDn: 1, tDn: 2}, {name: "MassIndex", nper: 3, nin: 2},
 	// trend B
 	{name: "Mls", nper: 1, nin: 2, minP: 2, nonlin: true}, {name: "Mlr", nper: 1, nin: 2, minP: 2, nonlin: true},
 	{name: "MovingMax", nper: 1, nin: 1, heavy: true, c15: true}, {name: "MovingMin", nper: 1, nin: 1, heavy: true, c15: true}, {name: "MovingSum", nper: 1, nin: 1},
-	{name: "Rma", nper: 1, nin: 1}, {name: "Smma", nper: 1, nin: 1}, {name: "Tema", nper: 3, nin: 1}, {name: "Trima", nper: 1, nin: 1, minP: 2},
-	{name: "Trix", nper: 1, nin: 1}, {name: "Tsi", nper: 2, nin: 1, nonlin: true}, {name: "TypicalPrice", nper: 0, nin: 3}, {name: "WeightedClose", nper: 0, nin: 3},
+	{name: "Rma", dflt: [3]int{20, 0, 0}, nper: 1, nin: 1}, {name: "Smma", dflt: [3]int{7, 0, 0}, nper: 1, nin: 1}, {name: "Tema", dflt: [3]int{20, 20, 20}, nper: 3, nin: 1}, {name: "Trima", dflt: [3]int{15, 0, 0}, nper: 1, nin: 1, minP: 2},
+	{name: "Trix", dflt: [3]int{15, 0, 0}, nper: 1, nin: 1}, {name: "Tsi", nper: 2, nin: 1, nonlin: true}, {name: "TypicalPrice", nper: 0, nin: 3}, {name: "WeightedClose", nper: 0, nin: 3},
 	{name: "Vwma", nper: 1, nin: 2}, {name: "Wma", nper: 1, nin: 1},
 	// momentum
-	{name: "AwesomeOscillator", nper: 2, nin: 2, ordered: true}, {name: "ChaikinOscillator", nper: 2, nin: 4, ordered: true},
+	{name: "AwesomeOscillator", dflt: [3]int{5, 34, 0}, nper: 2, nin: 2, ordered: true}, {name: "ChaikinOscillator", nper: 2, nin: 4, ordered: true},
 	{name: "IchimokuCloud", nper: 3, nin: 3, heavy: true, sorted3: true}, {name: "Ppo", nper: 3, nin: 1, ordered: true, nonlin: true}, {name: "Pvo", nper: 3, nin: 1, ordered: true, nonlin: true},
-	{name: "Qstick", nper: 1, nin: 2}, {name: "Rsi", nper: 1, nin: 1, c15: true, nonlin: true},
+	{name: "Qstick", dflt: [3]int{20, 0, 0}, nper: 1, nin: 2}, {name: "Rsi", nper: 1, nin: 1, c15: true, nonlin: true},
 	{name: "StochasticOscillator", nper: 2, nin: 3, heavy: true, c15: true}, {name: "StochasticRsi", nper: 1, nin: 1, heavy: true, c15: true, minP: 2, nonlin: true},
 	{name: "WilliamsR", nper: 1, nin: 3, heavy: true, c15: true},
 	// volume
 	{name: "Mfm", nper: 0, nin: 3, c15: true}, {name: "Mfv", nper: 0, nin: 4}, {name: "Ad", nper: 0, nin: 4}, {name: "Cmf", nper: 1, nin: 4, c15: true},
-	{name: "Emv", nper: 1, nin: 3, nonlin: true}, {name: "Fi", nper: 1, nin: 2}, {name: "Mfi", nper: 1, nin: 4, c15: true, nonlin: true, qDn: 2, qP: 2, tDn: 2, tP: 3}, {name: "Nvi", nper: 0, nin: 2},
-	{name: "Obv", nper: 0, nin: 2}, {name: "Vpt", nper: 0, nin: 2, nonlin: true}, {name: "Vwap", nper: 1, nin: 2},
+	{name: "Emv", nper: 1, nin: 3, nonlin: true}, {name: "Fi", dflt: [3]int{13, 0, 0}, nper: 1, nin: 2}, {name: "Mfi", nper: 1, nin: 4, c15: true, nonlin: true, qDn: 2, qP: 2, tDn: 2, tP: 3}, {name: "Nvi", nper: 0, nin: 2},
+	{name: "Obv", nper: 0, nin: 2}, {name: "Vpt", nper: 0, nin: 2, nonlin: true}, {name: "Vwap", dflt: [3]int{14, 0, 0}, nper: 1, nin: 2},
 	// volatility
 	{name: "AccelerationBands", nper: 1, nin: 3, c15: true, nonlin: true, qP: 2, qDn: 2, tP: 3, tDn: 3},
 	{name: "BollingerBands", nper: 1, nin: 1, c15: true, nonlin: true, qP: 2, qDn: 1, tP: 3, tDn: 2},
 	{name: "BollingerBandWidth", nper: 1, nin: 1, c15: true, nonlin: true, qP: 2, qDn: 1, tP: 3, tDn: 2, depMinP: 2},
 	{name: "MovingStd", nper: 1, nin: 1, c15: true, nonlin: true, qP: 2, qDn: 2, tP: 3, tDn: 2},
 	{name: "PercentB", nper: 1, nin: 1, minP: 2, nonlin: true, qP: 2, qDn: 1, tP: 3, tDn: 2},
-	{name: "DonchianChannel", nper: 1, nin: 1, heavy: true, c15: true}, {name: "KeltnerChannel", nper: 1, nin: 3, c15: true},
+	{name: "DonchianChannel", nper: 1, nin: 1, heavy: true, c15: true}, {name: "KeltnerChannel", dflt: [3]int{20, 0, 0}, nper: 1, nin: 3, c15: true},
 	{name: "ChandelierExit", nper: 1, nin: 3, heavy: true, tDn: 2}, {name: "Po", nper: 1, nin: 3, heavy: true, minP: 2, nonlin: true, qDn: 1, tP: 3, tDn: 2},
 	{name: "SuperTrend", nper: 1, nin: 3}, {name: "UlcerIndex", nper: 1, nin: 1, heavy: true, c15: true, nonlin: true, qP: 1, tP: 2, tDn: 1},
 }
@@ -181,8 +182,8 @@ func csi(h string, s indSpec, cfg [3]int, rest ...int) sym.CaseSpec {
 	return c
 }
 
-const indBoundsQ = "indicator periods in 1..3 (1..2 for search-tree based ones), all admissible combinations with pairwise different alignment amounts; input length n = warm-up + 1..3 (+1..2)"
-const indBoundsT = "indicator periods in 1..4 (1..3 for search-tree based ones); input length n = warm-up + 1..5 (+1..3)"
+const indBoundsQ = "default configurations of 19 linear indicators at n = warm-up + 1..2; indicator periods in 1..3 (1..2 for search-tree based ones), all admissible combinations with pairwise different alignment amounts; input length n = warm-up + 1..3 (+1..2)"
+const indBoundsT = "default configurations of 19 linear indicators at n = warm-up + 1..2; indicator periods in 1..4 (1..3 for search-tree based ones); input length n = warm-up + 1..5 (+1..3)"
 
 func init() {
 	grids["C01"] = &gridDef{
@@ -207,6 +208,15 @@ func init() {
 						out = append(out, c)
 					}
 				}
+				if s.dflt != [3]int{} {
+					// the default configuration, just beyond its warm-up
+					for d := 1; d <= 2; d++ {
+						c := csi("H_C01", s, s.dflt, d)
+						c.MaxWallS = 240
+						c.Weight = 1 << 20
+						out = append(out, c)
+					}
+				}
 			}
 			return out
 		},
@@ -226,6 +236,17 @@ func init() {
 			o := indOpts(tier)
 			var out []sym.CaseSpec
 			for _, s := range indSpecs {
+				if s.dflt != [3]int{} {
+					if w, ok := pr.idle(s.name, s.dflt); ok {
+						for _, n := range []int{0, 1, w - 1, w, w + 1, w + 2} {
+							if n >= 0 {
+								c := csi("H_C02", s, s.dflt, n)
+								c.Weight = 1 << 20
+								out = append(out, c)
+							}
+						}
+					}
+				}
 				mp, dn := s.lim(o)
 				for _, cfg := range s.configs(mp) {
 					w, ok := pr.idle(s.name, cfg)
